@@ -23,17 +23,34 @@ structure St where
   height : Nat := 256
   cur : T String := .empty
   committed : Array (T String) := #[]
-  /-- `updatedNodes` of the instance (only when `track`) -/
+  /-- `updatedNodes` of the instance and the hash-annotated current/committed trees (only when `track`) -/
   un : TrieStore.UN := []
   track : Bool := false
+  curH : TrieStore.TH := .empty
+  committedH : Array TrieStore.TH := #[]
 
-/-- An injective stand-in for the hash function (the driver never evaluates SHA-256): tag, 4-byte length, the input
-itself. Distinct inputs give distinct outputs, the outputs are prefix-free and never start with the `DefaultLeaf`
-byte, so two symbolic hashes are equal exactly when the real ones are (collisions aside). -/
-def symCtx : HashCtx :=
-  { H := fun x => 1 :: UInt8.ofNat (x.length / 16777216 % 256) :: UInt8.ofNat (x.length / 65536 % 256) ::
-      UInt8.ofNat (x.length / 256 % 256) :: UInt8.ofNat (x.length % 256) :: x,
-    enc := TrieBatch.packBits }
+/-- A stand-in for the hash function in the `updatedNodes` bookkeeping (the driver never evaluates SHA-256, and
+`wset` compares paths, not hash values): four independent 64-bit multiplicative lanes, 32 bytes of output. Only
+equality of hashes matters there; an accidental collision of this stand-in would show as a spurious trace
+difference, never hide one silently in a proof. -/
+def mixH (x : List UInt8) : List UInt8 :=
+  let m1 : UInt64 := 0x100000001b3
+  let m2 : UInt64 := 0x9E3779B97F4A7C15
+  let m3 : UInt64 := 0xff51afd7ed558ccd
+  let m4 : UInt64 := 0xc4ceb9fe1a85ec53
+  let m5 : UInt64 := 0xd6e8feb86659fd93
+  let a5 : UInt64 := 0x2545F4914F6CDD1D
+  let s := x.foldl (fun (s : UInt64 × UInt64 × UInt64 × UInt64) b =>
+    let v : UInt64 := b.toUInt64 + 1
+    ((s.1 ^^^ v) * m1,
+     ((s.2.1 + v) * m2) ^^^ ((s.2.1 + v) >>> 31),
+     (s.2.2.1 ^^^ (v * m3)) * m4 + a5,
+     ((s.2.2.2 + s.1 + v) * m5) ^^^ (s.2.2.2 >>> 27)))
+    ((0xcbf29ce484222325 : UInt64), (0x84222325cbf29ce4 : UInt64), (0x0123456789abcdef : UInt64), (0xfedcba9876543210 : UInt64))
+  let out (w : UInt64) : List UInt8 := (List.range 8).map fun i => (w >>> (8 * i.toUInt64)).toUInt8
+  out s.1 ++ out s.2.1 ++ out s.2.2.1 ++ out s.2.2.2
+
+def symCtx : HashCtx := { H := mixH, enc := TrieBatch.packBits }
 
 def mapT {α β : Type} (f : α → β) : T α → T β
   | .empty => .empty
@@ -55,21 +72,24 @@ def rootLine (s : St) : String := "root " ++ " ".intercalate (term s.height s.cu
 
 def c10Step (s : St) (line : String) : St × String :=
   match words line with
-  | ["new", _cacheHeight] => ({ s with cur := .empty, committed := #[], un := [], track := false }, "ok")
-  | ["new", _cacheHeight, "w"] => ({ s with cur := .empty, committed := #[], un := [], track := true }, "ok")
+  | ["new", _cacheHeight] => ({ s with cur := .empty, committed := #[], un := [], track := false, curH := .empty, committedH := #[] }, "ok")
+  | ["new", _cacheHeight, "w"] => ({ s with cur := .empty, committed := #[], un := [], track := true, curH := .empty, committedH := #[] }, "ok")
   | "update" :: kvs =>
     match kvs.mapM parseKV with
     | some (kv :: rest) =>
-      let un' := if s.track then
-          (TrieStore.updU symCtx s.height [] (toBytesT s.cur)
-            ((kv :: rest).map fun (k, ov) => (k, ov.map fun v => (unhex v).getD [])) s.un).2
-        else s.un
-      let s' := { s with cur := updateRoot s.height s.cur (kv :: rest), un := un' }
+      let (curH', un') := if s.track then
+          let r := TrieStore.updUH symCtx (fun _ _ _ => []) s.height [] s.curH
+            ((kv :: rest).map fun (k, ov) => (k, ov.map fun v => (unhex v).getD [])) s.un
+          (r.1.1, r.2)
+        else (s.curH, s.un)
+      let s' := { s with cur := updateRoot s.height s.cur (kv :: rest), un := un', curH := curH' }
+      -- the annotated tree must stay the plain one (Lemmas/TrieStoreUpdH.lean proves it does)
+      if s.track && toBytesT s'.cur != curH'.erase then (s', "model-inconsistent") else
       (s', rootLine s')
     | _ => (s, "bad-op")
   | ["wset"] =>
     if !s.track then (s, "bad-op") else
-    let roots := TrieStore.batchRoots symCtx (s.height / 4) [] (toBytesT s.cur)
+    let roots := TrieStore.batchRootsH (s.height / 4) [] s.curH
     let keys := s.un.map (·.1)
     let live := (roots.filter fun r => keys.contains r.2).map fun r => bitsStr r.1
     let orphans := (keys.filter fun k => !roots.any fun r => r.2 == k).length
@@ -79,12 +99,12 @@ def c10Step (s : St) (line : String) : St × String :=
     | some kb => (s, (get s.cur kb).getD "nil")
     | none => (s, "bad-op")
   | ["keys"] => (s, "keys " ++ ",".intercalate ((keysOf s.cur []).map bitsToHex))
-  | ["commit"] => ({ s with committed := s.committed.push s.cur, un := [] }, s!"ok {s.committed.size}")
+  | ["commit"] => ({ s with committed := s.committed.push s.cur, un := [], committedH := s.committedH.push s.curH }, s!"ok {s.committed.size}")
   | ["reopen", i] =>
     match i.toNat? with
     | some i =>
       match s.committed[i]? with
-      | some t => let s' := { s with cur := t, un := [] }; (s', rootLine s')
+      | some t => let s' := { s with cur := t, un := [], curH := s.committedH[i]?.getD .empty }; (s', rootLine s')
       | none => (s, "bad-op")
     | none => (s, "bad-op")
   | ["par", v] =>
